@@ -219,6 +219,20 @@ func (s *Svc) Tree(ctx context.Context, depth int) (int, error) {
 	return a + b + 1, nil
 }
 
+// Tick invokes a closure that takes nothing but the context n times and sums what it returns.
+func (s *Svc) Tick(ctx context.Context, n int, cb func(ctx context.Context) (int, error)) (int, error) {
+	s.log(ctx, "Tick", fmt.Sprint(n))
+	sum := 0
+	for i := 0; i < n; i++ {
+		v, err := cb(ctx)
+		if err != nil {
+			return sum, err
+		}
+		sum += v
+	}
+	return sum, nil
+}
+
 // WithClosure invokes cb n times (sequentially or concurrently) and returns what it returned.
 func (s *Svc) WithClosure(ctx context.Context, n int, conc bool, cb func(ctx context.Context, i int, str string) (string, error)) ([]string, error) {
 	s.log(ctx, "WithClosure", fmt.Sprintf("%d,%v", n, conc))
@@ -434,6 +448,7 @@ type Remote struct {
 	Bounce      func(ctx context.Context, depth int) (int, error)
 	Tree        func(ctx context.Context, depth int) (int, error)
 	WithClosure func(ctx context.Context, n int, conc bool, cb func(ctx context.Context, i int, str string) (string, error)) ([]string, error)
+	Tick        func(ctx context.Context, n int, cb func(ctx context.Context) (int, error)) (int, error)
 	KeepClosure func(ctx context.Context, slot int, cb func(ctx context.Context, i int, str string) (string, error)) error
 	KeepAndGate func(ctx context.Context, slot int, gate int, cb func(ctx context.Context, i int, str string) (string, error)) error
 	KeepTwo      func(ctx context.Context, slot int, a func(ctx context.Context, i int, str string) (string, error), b func(ctx context.Context, i int, str string) (string, error)) (string, error)
